@@ -547,10 +547,10 @@ inductive Key where
 def byteOf (z : Int) : Nat := z.toNat
 
 def Key.enc : Key → Bytes
-  | .x cid => byteOf Generated.container_containerKeyPrefix :: cid
-  | .o owner cid => byteOf Generated.container_ownerKeyPrefix :: (owner ++ cid)
-  | .d cid => byteOf Generated.container_deletedKeyPrefix :: cid
-  | .m cid => byteOf Generated.container_containersWithMetaPrefix :: cid
+  | .x cid => (Generated.container_containerKeyPrefix_bytes.headD 0) :: cid
+  | .o owner cid => (Generated.container_ownerKeyPrefix_bytes.headD 0) :: (owner ++ cid)
+  | .d cid => (Generated.container_deletedKeyPrefix_bytes.headD 0) :: cid
+  | .m cid => (Generated.container_containersWithMetaPrefix_bytes.headD 0) :: cid
   | .eacl cid => Generated.container_eACLPrefix ++ cid
   | .alias cid => Generated.container_nnsHasAliasKey_bytes ++ cid
   | .neofsID => Generated.container_neofsIDContractKey_bytes
@@ -558,9 +558,9 @@ def Key.enc : Key → Bytes
   | .netmapC => Generated.container_netmapContractKey_bytes
   | .nnsC => Generated.container_nnsContractKey_bytes
   | .nnsRoot => Generated.container_nnsRootKey_bytes
-  | .nodes rest => byteOf Generated.container_nodesPrefix :: rest
-  | .replicas rest => byteOf Generated.container_replicasNumberPrefix :: rest
-  | .nextNodes rest => byteOf Generated.container_nextEpochNodesPrefix :: rest
+  | .nodes rest => (Generated.container_nodesPrefix_bytes.headD 0) :: rest
+  | .replicas rest => (Generated.container_replicasNumberPrefix_bytes.headD 0) :: rest
+  | .nextNodes rest => (Generated.container_nextEpochNodesPrefix_bytes.headD 0) :: rest
   | .est rest => Generated.container_singleEstimatePrefix_bytes ++ rest
   | .cnr rest => Generated.container_estimateKeyPrefix_bytes ++ rest
 
